@@ -27,6 +27,12 @@ PROPS = {
         "assumptions": [SQLITE, "SQLite WAL isolation: one write lock, readers see the last committed state (assumed by the abstract transactional store; validated by this run)"],
         "trusted_base": [],
     },
+    "C06": {
+        "gens": ["C06"],
+        "rule": "statement-fault enumeration on a file-backed store: every mutating call (insert/replace with 0..4 tags (thorough: 0..8), remove, remove_all with/without filter) x fault point (k-th tag insert for k = 0..max, tag delete, item insert, item update, item delete; injected as SQLite RAISE(ABORT) triggers through a second connection), each followed by a full ordered dump and further calls on the same session; non-trivial = at least one fault was actually reached in a multi-statement call and at least one faulted call went through unaffected; distinct = hash",
+        "assumptions": [SQLITE, "a statement failure injected by a trigger is representative of a backend failure at that statement; statement-level atomicity of a single DELETE is SQLite's"],
+        "trusted_base": [],
+    },
     "C07": {
         "gens": ["C07"],
         "rule": "interleaved histories over up to 4 profile names with colliding record identities, create/remove/re-create, sessions on missing profiles, per-profile scans; non-trivial = >= 2 profiles hold records and a profile is removed and another created afterwards; distinct = hash",
@@ -96,6 +102,8 @@ def nontrivial(prop, rec):
             elif w >= 1 and op.get("op") in ("fetch", "count", "fetch_all", "scan") and op.get("s") != 0:
                 saw_foreign_read_between = True
         return w >= 2 and saw_foreign_read_between
+    if prop == "C06":
+        return feat.get("fault:reached", 0) > 0 and feat.get("fault:tag", 0) > feat.get("fault:reached", 0) - feat.get("fault:tagdel", 0) - feat.get("fault:item", 0) - feat.get("fault:itemupd", 0) - feat.get("fault:itemdel", 0)
     if prop == "C07":
         created = [i for i, op in enumerate(ops) if op.get("op") == "create_profile"]
         removed = [i for i, (op, o) in enumerate(zip(ops, outs)) if op.get("op") == "remove_profile" and isinstance(o, dict) and o.get("removed")]
